@@ -12,6 +12,13 @@
 (* Variant "shared": err is the variable of the function which DECLARED    *)
 (*                   the sink, shared by all invocations of that sink      *)
 (*                   (the code as found).                                  *)
+(* Three more pieces of per-invocation state were added after seeded       *)
+(* changes showed that each can be shared by mistake just as easily:       *)
+(*   the binding of the name "event" (own scope / "shared-event": the      *)
+(*   global scope), the value a sink returns ("shared-data": one variable  *)
+(*   per sink declaration, never cleared) and the thread identity the body *)
+(*   runs with ("shared-tid": the declaring thread's, so every invocation  *)
+(*   owns every ECAL mutex).                                               *)
 (***************************************************************************)
 EXTENDS Integers, Sequences, FiniteSets, TLC, Json
 
@@ -20,37 +27,65 @@ CONSTANTS Inv,      \* invocations
           Out,      \* [Inv -> "ok" | "fail"]
           Variant
 
-VARIABLES pc,        \* [Inv -> "enter" | "eventSet" | "return" | "done"]
+VARIABLES pc,        \* [Inv -> "enter" | "eventSet" | "crit" | "return" | "done"]
           lerr,      \* [Inv -> err] invocation-local result variable
           serr,      \* [sink -> err] shared result variable
           reported,  \* [Inv -> err]
+          lev, gev,  \* the event bound to the name "event": per invocation / in the global scope
+          seen,      \* [Inv -> the event the body read]
+          ldata, sdata, rdata,   \* value returned by the body: per invocation / per sink; what is reported with the outcome
+          owner,     \* owner of the ECAL mutex the bodies use (an invocation, "decl" or "none")
+          incrit,    \* invocations inside the critical section
           hist
-vars == <<pc, lerr, serr, reported, hist>>
+vars == <<pc, lerr, serr, reported, lev, gev, seen, ldata, sdata, rdata, owner, incrit, hist>>
 
 Sinks == {SinkOf[i] : i \in Inv}
 Init == /\ pc = [i \in Inv |-> "enter"] /\ lerr = [i \in Inv |-> "nil"] /\ serr = [s \in Sinks |-> "nil"]
         /\ reported = [i \in Inv |-> "none"] /\ hist = <<>>
+        /\ lev = [i \in Inv |-> "none"] /\ gev = "none" /\ seen = [i \in Inv |-> "none"]
+        /\ ldata = [i \in Inv |-> "none"] /\ sdata = [s \in Sinks |-> "none"] /\ rdata = [i \in Inv |-> "none"]
+        /\ owner = "none" /\ incrit = {}
 
 Write(i, v) == IF Variant = "shared" THEN /\ serr' = [serr EXCEPT ![SinkOf[i]] = v] /\ UNCHANGED lerr
                                      ELSE /\ lerr' = [lerr EXCEPT ![i] = v] /\ UNCHANGED serr
 Read(i) == IF Variant = "shared" THEN serr[SinkOf[i]] ELSE lerr[i]
 
+Tid(i) == IF Variant = "shared-tid" THEN "decl" ELSE i
 \* sink.action.enter -> sink.action.eventSet : err = sinkVS.SetValue("event", ...)
 SetEvent(i) == /\ pc[i] = "enter" /\ pc' = [pc EXCEPT ![i] = "eventSet"] /\ Write(i, "nil")
-               /\ hist' = Append(hist, <<i, "SetEvent">>) /\ UNCHANGED reported
-\* sink.action.eventSet -> sink.action.return : if err == nil { _, err = body.Eval(); wrap }
-Eval(i) == /\ pc[i] = "eventSet" /\ pc' = [pc EXCEPT ![i] = "return"]
+               /\ IF Variant = "shared-event" THEN gev' = i /\ UNCHANGED lev ELSE lev' = [lev EXCEPT ![i] = i] /\ UNCHANGED gev
+               /\ hist' = Append(hist, <<i, "SetEvent">>) /\ UNCHANGED <<reported, seen, ldata, sdata, rdata, owner, incrit>>
+\* the body enters its mutex block (re-entrant for the owner's thread identity) ...
+Enter(i) == /\ pc[i] = "eventSet" /\ (owner = "none" \/ owner = Tid(i))
+            /\ pc' = [pc EXCEPT ![i] = "crit"] /\ owner' = Tid(i) /\ incrit' = incrit \cup {i}
+            /\ seen' = [seen EXCEPT ![i] = IF Variant = "shared-event" THEN gev ELSE lev[i]]
+            /\ hist' = Append(hist, <<i, "Enter">>) /\ UNCHANGED <<lerr, serr, reported, lev, gev, ldata, sdata, rdata>>
+\* ... and leaves it; sink.action.eventSet -> sink.action.return : if err == nil { _, err = body.Eval(); wrap }
+Eval(i) == /\ pc[i] = "crit" /\ pc' = [pc EXCEPT ![i] = "return"]
+           /\ incrit' = incrit \ {i} /\ owner' = IF incrit \ {i} = {} THEN "none" ELSE owner
            /\ IF Read(i) = "nil" THEN Write(i, IF Out[i] = "fail" THEN "fail" ELSE "nil") ELSE UNCHANGED <<lerr, serr>>
-           /\ hist' = Append(hist, <<i, "Eval">>) /\ UNCHANGED reported
-\* sink.action.return -> : return err
+           \* an invocation which does not fail returns its own value; a failing one returns nothing
+           /\ IF Out[i] = "ok"
+              THEN IF Variant = "shared-data" THEN sdata' = [sdata EXCEPT ![SinkOf[i]] = i] /\ UNCHANGED ldata
+                                              ELSE ldata' = [ldata EXCEPT ![i] = i] /\ UNCHANGED sdata
+              ELSE UNCHANGED <<ldata, sdata>>
+           /\ hist' = Append(hist, <<i, "Eval">>) /\ UNCHANGED <<reported, lev, gev, seen, rdata>>
+\* sink.action.return -> : return err (with the data the body produced)
 Return(i) == /\ pc[i] = "return" /\ pc' = [pc EXCEPT ![i] = "done"]
              /\ reported' = [reported EXCEPT ![i] = Read(i)]
-             /\ hist' = Append(hist, <<i, "Return">>) /\ UNCHANGED <<lerr, serr>>
+             /\ rdata' = [rdata EXCEPT ![i] = IF Variant = "shared-data" THEN sdata[SinkOf[i]] ELSE ldata[i]]
+             /\ hist' = Append(hist, <<i, "Return">>) /\ UNCHANGED <<lerr, serr, lev, gev, seen, ldata, sdata, owner, incrit>>
 
-Next == \E i \in Inv : SetEvent(i) \/ Eval(i) \/ Return(i)
+Next == \E i \in Inv : SetEvent(i) \/ Enter(i) \/ Eval(i) \/ Return(i)
 Spec == Init /\ [][Next]_vars
 
 \* C11: the outcome recorded for an invocation is what that invocation's code produced
 OwnOutcome == \A i \in Inv : pc[i] = "done" => reported[i] = (IF Out[i] = "fail" THEN "fail" ELSE "nil")
+\* every invocation sees its own event
+OwnEvent == \A i \in Inv : seen[i] \in {"none", i}
+\* the data recorded with an outcome is what that invocation produced (nothing for a failing one)
+OwnData == \A i \in Inv : pc[i] = "done" => rdata[i] = (IF Out[i] = "ok" THEN i ELSE "none")
+\* the interpreter's bookkeeping keeps overlapping invocations apart: one at a time inside a mutex block
+OneInCrit == Cardinality(incrit) <= 1
 ExportBad == OwnOutcome \/ PrintT(<<"BEHAVIOUR", ToJson(hist)>>)
 =============================================================================
